@@ -117,6 +117,8 @@ structure Gen where
   ctx : String
   states : List (List Var)
   events : List String
+  mqtts : List String                   -- topic of each `@mqtt_trigger`
+  hooks : List String                   -- webhook id of each `@webhook_trigger`
   services : List String
   startup : Bool
   shutdown : Bool
@@ -129,6 +131,8 @@ deriving Repr, DecidableEq
 structure World where
   st : StateTbl
   ev : EvSt
+  mq : EvSt                             -- `Mqtt.notify` (keyed by `[topic]`) + live `mqtt.async_subscribe` subscriptions per topic
+  wh : EvSt                             -- `Webhook.notify` (keyed by `[webhook_id]`) + Home Assistant webhook registrations per id
   svc : List (String × Nat)             -- `Function.service_cnt`
   owner : List (String × String)        -- `Function.service2global_ctx`: service name ↦ owning global context
   started : List Gen                    -- generations whose triggers run
@@ -139,7 +143,7 @@ structure World where
 deriving Repr
 
 def emptyWorld : World :=
-  { st := [], ev := { tbl := [], bus := [] }, svc := [], owner := [], started := [], binds := [], slots := [], log := [],
+  { st := [], ev := { tbl := [], bus := [] }, mq := { tbl := [], bus := [] }, wh := { tbl := [], bus := [] }, svc := [], owner := [], started := [], binds := [], slots := [], log := [],
     next := 0 }
 
 def svcCount (s : List (String × Nat)) (n : String) : Nat := (s.lookup n).getD 0
@@ -153,24 +157,38 @@ def svcDec (s : List (String × Nat)) (n : String) : List (String × Nat) :=
 
 def idxList {α} (l : List α) : List (Nat × α) := (List.range l.length).zip l
 
-/-- subscribe one generation.  Legacy (`EvalFunc.trigger_init`): the `k`-th `TrigInfo` of a function owns queue
-`(id, k)` and takes the `k`-th `@state_trigger` and the `k`-th `@event_trigger`; its `trigger_watch` prologue
-subscribes them.  New (`Decorator.start`): the `k`-th `@state_trigger` owns queue `(id, k)`; every `@event_trigger`
-installs its own bus listener. -/
+/-- one notify channel (`Event`, `Mqtt`, `Webhook` – the three classes have the same `notify_add` / `notify_del`:
+the first queue of a key installs the Home Assistant side – bus listener, `mqtt.async_subscribe`,
+`webhook.async_register` –, the last one removes it together with the table entry; tools/extractors/C09.py checks that
+shape on all three).  Legacy (`EvalFunc.trigger_init`): the `k`-th `TrigInfo` of a function owns queue `(id, k)` and
+takes the `k`-th decorator of every kind; its `trigger_watch` prologue subscribes them.  New (`Decorator.start`): every
+`@event_trigger` / `@mqtt_trigger` / `@webhook_trigger` makes its own Home Assistant registration, the notify tables
+are not used. -/
+def chanSub (sub : Sub) (i : Nat) (keys : List String) (s : EvSt) : EvSt :=
+  match sub with
+  | .legacy => (idxList keys).foldl (fun s kv => evAdd s kv.2 (i, kv.1)) s
+  | .new => { s with bus := keys.foldl busInc s.bus }
+
+def chanUnsub (sub : Sub) (i : Nat) (keys : List String) (s : EvSt) : EvSt :=
+  match sub with
+  | .legacy => (idxList keys).foldl (fun s kv => evDel s kv.2 (i, kv.1)) s
+  | .new => { s with bus := keys.foldl busDec s.bus }
+
+/-- subscribe one generation.  The `k`-th `@state_trigger` owns queue `(id, k)` in both subsystems. -/
 def subscribe (sub : Sub) (g : Gen) (w : World) : World :=
   { w with
     st := (idxList g.states).foldl (fun t kv => notifyAdd kv.2 (g.id, kv.1) t) w.st,
-    ev := match sub with
-      | .legacy => (idxList g.events).foldl (fun s kv => evAdd s kv.2 (g.id, kv.1)) w.ev
-      | .new => { w.ev with bus := g.events.foldl busInc w.ev.bus } }
+    ev := chanSub sub g.id g.events w.ev,
+    mq := chanSub sub g.id g.mqtts w.mq,
+    wh := chanSub sub g.id g.hooks w.wh }
 
 /-- unsubscribe (`TrigInfo.stop` / `Decorator.stop` of every decorator) -/
 def unsubscribe (cont : Bool) (sub : Sub) (g : Gen) (w : World) : World :=
   { w with
     st := (idxList g.states).foldl (fun t kv => notifyDel cont (g.id, kv.1) kv.2 t) w.st,
-    ev := match sub with
-      | .legacy => (idxList g.events).foldl (fun s kv => evDel s kv.2 (g.id, kv.1)) w.ev
-      | .new => { w.ev with bus := g.events.foldl busDec w.ev.bus } }
+    ev := chanUnsub sub g.id g.events w.ev,
+    mq := chanUnsub sub g.id g.mqtts w.mq,
+    wh := chanUnsub sub g.id g.hooks w.wh }
 
 def ownerOf (o : List (String × String)) (n : String) : Option String := o.lookup n
 
@@ -187,14 +205,29 @@ def svcRelease (s : List (String × Nat) × List (String × String)) (n : String
 The function whose `@service` is refused gets neither services nor triggers (legacy: `trigger_init` raises before any
 trigger is created; new: `DecoratorManager.start` rolls back the decorators already started).  Modelled for functions
 that declare at most one service. -/
-def refused (w : World) (g : Gen) : Bool :=
+def svcRefused (w : World) (g : Gen) : Bool :=
   g.services.any (fun n => match ownerOf w.owner n with | some c => !(c == g.ctx) | none => false)
 
-/-- what is left of a function whose service registration was refused: a referenced object without declarations -/
-def inert (g : Gen) : Gen :=
-  { g with states := [], events := [], services := [], startup := false, shutdown := false }
+def dupFree : List String → Bool
+  | [] => true
+  | x :: xs => !xs.contains x && dupFree xs
 
-def effective (w : World) (g : Gen) : Gen := if refused w g then inert g else g
+/-- Home Assistant's webhook registry is a dictionary: `webhook.async_register` raises when the id already has a
+handler.  The legacy subsystem registers an id once (`Webhook.notify_add`, first queue) and multiplexes; in the NEW
+subsystem every `@webhook_trigger` registers itself, so a function naming an id that is registered already (by another
+live function, or twice by itself) fails to start and `DecoratorManager.start` rolls it back (C08-F1). -/
+def hookClash (sub : Sub) (w : World) (g : Gen) : Bool :=
+  match sub with
+  | .legacy => false
+  | .new => !dupFree g.hooks || g.hooks.any (fun h => busCount w.wh.bus h != 0)
+
+def refused (sub : Sub) (w : World) (g : Gen) : Bool := svcRefused w g || hookClash sub w g
+
+/-- what is left of a function whose start failed: a referenced object without declarations -/
+def inert (g : Gen) : Gen :=
+  { g with states := [], events := [], mqtts := [], hooks := [], services := [], startup := false, shutdown := false }
+
+def effective (sub : Sub) (w : World) (g : Gen) : Gen := if refused sub w g then inert g else g
 
 def startGen (sub : Sub) (g : Gen) (w : World) : World :=
   let w1 := subscribe sub g w
@@ -220,7 +253,8 @@ def sweep (cont : Bool) (sub : Sub) (w : World) : World :=
 
 /-- what scripts do -/
 inductive Op where
-  | define (ctx name : String) (states : List (List Var)) (events services : List String) (startup shutdown : Bool)
+  | define (ctx name : String) (states : List (List Var)) (events mqtts hooks services : List String)
+      (startup shutdown : Bool)
   | del (ctx name : String)                    -- `del name`
   | rebind (ctx dst src : String)              -- `dst = src`
   | put (slot : Nat) (ctx name : String)       -- `container[slot] = name` (dict, default argument, closure, class attribute)
@@ -230,8 +264,10 @@ inductive Op where
   | unloadAll
 deriving Repr
 
-def mkGen (i : Nat) (ctx : String) (states : List (List Var)) (events services : List String) (su sd : Bool) : Gen :=
-  { id := i, ctx := ctx, states := states, events := events, services := services, startup := su, shutdown := sd }
+def mkGen (i : Nat) (ctx : String) (states : List (List Var)) (events mqtts hooks services : List String)
+    (su sd : Bool) : Gen :=
+  { id := i, ctx := ctx, states := states, events := events, mqtts := mqtts, hooks := hooks, services := services,
+    startup := su, shutdown := sd }
 
 def lookupBind (w : World) (ctx name : String) : Option Nat :=
   (w.binds.find? (fun b => b.1 == ctx && b.2.1 == name)).map (·.2.2)
@@ -241,8 +277,8 @@ def setBind (w : World) (ctx name : String) (i : Nat) : World :=
 
 /-- the effect of the operation itself, before unreferenced generations are collected -/
 def applyOp (sub : Sub) (w : World) : Op → World
-  | .define ctx name states events services su sd =>
-    let g : Gen := effective w (mkGen w.next ctx states events services su sd)
+  | .define ctx name states events mqtts hooks services su sd =>
+    let g : Gen := effective sub w (mkGen w.next ctx states events mqtts hooks services su sd)
     setBind (startGen sub g { w with next := w.next + 1 }) ctx name g.id
   | .del ctx name => { w with binds := w.binds.filter (fun b => !(b.1 == ctx && b.2.1 == name)) }
   | .rebind ctx dst src =>
